@@ -8,6 +8,9 @@ NOLIMIT = 99
 CAP = 3
 
 
+HANG_SECONDS = 8.0      # a call that does not return (endless loop) is observed as a hang, like a self-deadlock
+
+
 class Adapter:
     def __init__(self, cfg):
         base.use_repo()
@@ -57,6 +60,8 @@ class Adapter:
         obs = {"result": True, "hang": False, "raised": False}
         pre_phase = t.get_phase().value
         started = t.get_age() is not None
+        dl = shims.deadline(HANG_SECONDS)
+        dl.__enter__()
         try:
             if op == "start":
                 t.start()
@@ -78,10 +83,12 @@ class Adapter:
                 t.reset()
             elif op == "advance":
                 self.clock.advance(3600 * a["n"])
-        except shims.SelfDeadlock:
+        except (shims.SelfDeadlock, shims.Hung):
             obs["hang"], obs["result"] = True, False
         except Exception as ex:
             obs["raised"], obs["result"], obs["exc"] = True, False, type(ex).__name__
+        finally:
+            dl.__exit__()
         obs["trans"] = [list(x) for x in w["trans"]]
         ret = not obs["hang"] and not obs["raised"]
         # shadow of the monitors TLC carries (dedup only; no verdict is computed from it)
@@ -127,7 +134,7 @@ def simulate_cfg(args):
     c, num, depth, seed_ = args
     beh = conform.simulate("Telomere", constants(c), num, depth, seed_)
     ad = Adapter(c)
-    chains, mism = [], 0
+    chains, mism, hangs = [], 0, 0
     for states in beh:
         w = ad.make()
         ad.clock.t = shims.VClock().t
@@ -140,7 +147,12 @@ def simulate_cfg(args):
             if any(post[k] != st[k] for k in post) or (a["op"] != "advance" and obs["result"] != o["result"]) or obs["trans"] != o["trans"]:
                 mism += 1
             chain.append({"act": a, "obs": obs, "post": post})
+            if obs.get("hang"):
+                hangs += 1
+                break                      # the object is unusable after a call that never returned
         chains.append(chain)
+        if hangs >= explore.MAX_HANGS:
+            break
     tree = explore.chains_to_tree(chains)
     tree["header"]["root"] = ad.project(ad.make())
     r, pf, dr = conform.walk_tree("Trace_Telomere", tree, constants(c), "c09sim")
